@@ -45,10 +45,11 @@ Fixpoint check_params (declared : list key) (kw : params) : option key :=
 Inductive entry :=
 | EStr                (* model_from_str(text, **kw) *)
 | EStrFn (f : nat)    (* model_from_str(text, file_name, **kw) *)
-| EFile (f : nat).    (* model_from_file(file_name, **kw) *)
+| EFile (f : nat)     (* model_from_file(file_name, **kw) *)
+| ERepo.              (* GlobalRepo.load_models_in_model_repo with **kw: every registered pattern, no validation *)
 
 Definition sig_of (e : entry) : list key :=
-  match e with EFile _ => sig_from_file | _ => sig_from_str end.
+  match e with EFile _ => sig_from_file | ERepo => sig_repo | _ => sig_from_str end.
 
 (* the arguments the call supplies itself (self, model_str / file_name) *)
 Definition pos_bound (e : entry) : list key :=
@@ -56,6 +57,7 @@ Definition pos_bound (e : entry) : list key :=
   | EStr => firstn 2 sig_from_str
   | EStrFn _ => firstn 3 sig_from_str
   | EFile _ => firstn 2 sig_from_file
+  | ERepo => firstn 1 sig_repo
   end.
 
 (* Python argument binding: a keyword naming an argument that is already supplied is a TypeError
@@ -87,15 +89,18 @@ Definition resolve (i : import) (p : params) : option (list nat) :=
     end
   else i_plain i.
 
-(* f_prim: the root rule yields a Python str/int (no attributes can be set on it) *)
-Record file := { f_imports : list import; f_prim : bool }.
+(* f_prim: the root rule yields a Python str/int (no attributes can be set on it);
+   f_lang: the registered language whose file pattern matches the file name (metamodel_for_file),
+   None: no language is registered for it *)
+Record file := { f_imports : list import; f_prim : bool; f_lang : option nat }.
 
 Inductive pkind := PNone | PImportURI | PGlobalRepo.
 Record cfg := { c_prov : pkind; c_grepo : bool }.
 
 (* a model object: file name (None for model_from_str without file_name), primitive?, the
    _tx_model_params attribute (None: attribute absent), the operation that created it *)
-Record mrec := { m_file : option nat; m_prim : bool; m_params : option params; m_op : nat }.
+(* m_mm: the metamodel that loaded it (0 = the metamodel of the entry point, k = registered language k) *)
+Record mrec := { m_file : option nat; m_prim : bool; m_params : option params; m_op : nat; m_mm : nat }.
 
 (* heap: every model object created so far, identity = index; allm: ModelRepository.filename_to_model
    of the load (insertion order), restricted to real file names *)
@@ -127,6 +132,8 @@ Inductive err :=
 | EPrimAttr   (* AttributeError: attribute access on a str/int model *)
 | ENoFile     (* TypeError: dirname(None) — ImportURI import in a model without file name *)
 | ENoParams   (* AttributeError: the importing model has no _tx_model_params *)
+| ENoMM       (* AttributeError: no language registered for the file and no default metamodel *)
+| ENotApplicable (* the provider has no load_models_in_model_repo *)
 | EFuel.      (* model artefact; excluded by C27_fuel_sufficient *)
 
 Inductive res := Ok (s : lstate) | Fail (e : err).
@@ -134,30 +141,39 @@ Inductive res := Ok (s : lstate) | Fail (e : err).
 Section Loops.
   (* load_new for an imported file: internal_model_from_file(filename, pre_ref_resolution_callback=
      repository callback, model_params=<the importing model's parameters>) *)
-  Variable rec : nat -> file -> lstate -> res.
+  Variable rec : nat -> nat -> file -> lstate -> res.      (* metamodel, file name, file, state *)
   Variable w : list file.
 
-  (* GlobalModelRepository.load_model for each file name the pattern denotes *)
-  Fixpoint load_files (fs : list nat) (s : lstate) : res :=
+  (* metamodel_for_file_or_default_metamodel: the registered language of the file, else the default *)
+  Definition mm_for (dflt : option nat) (fr : file) : option nat :=
+    match f_lang fr with Some l => Some l | None => dflt end.
+
+  (* GlobalModelRepository.load_model for each file name the pattern denotes; the metamodel found
+     for one file is the default for the next one of the same pattern (the loop reassigns it) *)
+  Fixpoint load_files (dflt : option nat) (fs : list nat) (s : lstate) : res :=
     match fs with
     | [] => Ok s
     | f :: fs' =>
-      match repo_find f (allm s) with
-      | Some _ => load_files fs' s                       (* locally / globally cached *)
-      | None =>
-        match nth_error w f with
-        | None => Fail EMissing
-        | Some fr =>
-          match rec f fr s with
-          | Ok s' => load_files fs' s'
-          | Fail e => Fail e
+      match nth_error w f with
+      | None => Fail EMissing
+      | Some fr =>
+        match repo_find f (allm s) with
+        | Some _ => load_files (mm_for dflt fr) fs' s                  (* locally / globally cached *)
+        | None =>
+          match mm_for dflt fr with
+          | None => Fail ENoMM                                         (* None.internal_model_from_file *)
+          | Some mm =>
+            match rec mm f fr s with
+            | Ok s' => load_files (Some mm) fs' s'
+            | Fail e => Fail e
+            end
           end
         end
       end
     end.
 
   (* _load_referenced_models: one load_models_using_filepattern / load_model_using_search_path per import *)
-  Fixpoint load_imps (prov : pkind) (fn : option nat) (id : nat) (p : params) (l : list import) (s : lstate) : res :=
+  Fixpoint load_imps (prov : pkind) (mm : nat) (fn : option nat) (id : nat) (p : params) (l : list import) (s : lstate) : res :=
     match l with
     | [] => Ok s
     | i :: l' =>
@@ -168,10 +184,26 @@ Section Loops.
         match resolve i p with
         | None => Fail EMissing
         | Some fs =>
-          match load_files fs s1 with
-          | Ok s' => load_imps prov fn id p l' s'
+          match load_files (Some mm) fs s1 with
+          | Ok s' => load_imps prov mm fn id p l' s'
           | Fail e => Fail e
           end
+        end
+      end
+    end.
+
+  (* load_models_in_model_repo: one load_models_using_filepattern(pattern, model=None) per registered
+     pattern: the pattern as it is (no project_root), no default metamodel, no importing model *)
+  Fixpoint load_pats (l : list import) (s : lstate) : res :=
+    match l with
+    | [] => Ok s
+    | i :: l' =>
+      match i_plain i with
+      | None => Fail EMissing
+      | Some fs =>
+        match load_files None fs s with
+        | Ok s' => load_pats l' s'
+        | Fail e => Fail e
         end
       end
     end.
@@ -183,7 +215,7 @@ Definition is_loader (p : pkind) : bool := match p with PNone => false | _ => tr
    create the object, run the callback chain (kwargs_callback attaches the parameters when the
    object can carry attributes, then the repository callback registers it under its file name),
    then every ModelLoader provider loads the imports, forwarding model._tx_model_params. *)
-Fixpoint load_new (fuel : nat) (w : list file) (prov : pkind) (opn : nat)
+Fixpoint load_new (fuel : nat) (w : list file) (prov : pkind) (opn : nat) (mm : nat)
          (fn : option nat) (fr : file) (p : params) (reg_cb : bool) (s : lstate) : res :=
   match fuel with
   | O => Fail EFuel
@@ -191,10 +223,10 @@ Fixpoint load_new (fuel : nat) (w : list file) (prov : pkind) (opn : nat)
     let id := length (heap s) in
     if f_prim fr then
       if reg_cb || is_loader prov then Fail EPrimAttr
-      else Ok {| heap := heap s ++ [{| m_file := fn; m_prim := true; m_params := None; m_op := opn |}];
+      else Ok {| heap := heap s ++ [{| m_file := fn; m_prim := true; m_params := None; m_op := opn; m_mm := mm |}];
                  allm := allm s |}
     else
-      let s1 := {| heap := heap s ++ [{| m_file := fn; m_prim := false; m_params := Some p; m_op := opn |}];
+      let s1 := {| heap := heap s ++ [{| m_file := fn; m_prim := false; m_params := Some p; m_op := opn; m_mm := mm |}];
                    allm := if reg_cb then match fn with Some f => repo_set f id (allm s) | None => allm s end
                            else allm s |} in
       if is_loader prov then
@@ -202,8 +234,8 @@ Fixpoint load_new (fuel : nat) (w : list file) (prov : pkind) (opn : nat)
         | Some m =>
           match m_params m with
           | Some p' =>
-            load_imps (fun f fr' s' => load_new fuel' w prov opn (Some f) fr' p' true s') w
-                      prov fn id p' (f_imports fr) s1
+            load_imps (fun mm' f fr' s' => load_new fuel' w prov opn mm' (Some f) fr' p' true s') w
+                      prov mm fn id p' (f_imports fr) s1
           | None => Fail ENoParams
           end
         | None => Fail ENoParams
@@ -226,11 +258,12 @@ Inductive outcome :=
 | ORejected (k : key)        (* TextXError unknown parameter k *)
 | ONotStr                    (* TextXError textX accepts only strings *)
 | OErr (e : err)
-| OLoaded (result : nat) (first_new : nat) (repo : option (list (nat * nat))).
+| OLoaded (result : nat) (first_new : nat) (repo : option (list (nat * nat)))
+| ORepo (first_new : nat) (repo : list (nat * nat)).   (* load_models_in_model_repo returns the repository *)
 
 Definition fuel_for (w : list file) : nat := S (S (length w)).
 
-Definition is_str_entry (e : entry) : bool := match e with EFile _ => false | _ => true end.
+Definition is_str_entry (e : entry) : bool := match e with EFile _ | ERepo => false | _ => true end.
 
 Definition finish_load (c : cfg) (g : gstate) (e : entry) (prim : bool) (r : res) : gstate * outcome :=
   match r with
@@ -247,7 +280,7 @@ Definition run_op (w : list file) (c : cfg) (declared : list key) (opn : nat) (g
   match bind_kwargs (o_entry o) (o_kw o) with
   | None => (g, OTypeError)
   | Some kw =>
-    match check_params declared kw with
+    match (match o_entry o with ERepo => None | _ => check_params declared kw end) with
     | Some k => (g, ORejected k)
     | None =>
       if is_str_entry (o_entry o) && negb (o_is_str o) then (g, ONotStr) else
@@ -255,13 +288,13 @@ Definition run_op (w : list file) (c : cfg) (declared : list key) (opn : nat) (g
       match o_entry o with
       | EStr =>
         finish_load c g EStr (f_prim (o_content o))
-                    (load_new (fuel_for w) w (c_prov c) opn None (o_content o) kw false s0)
+                    (load_new (fuel_for w) w (c_prov c) opn 0 None (o_content o) kw false s0)
       | EStrFn f =>
         match (if c_grepo c then repo_find f (g_repo g) else None) with
         | Some id => (g, OLoaded id (length (g_heap g)) (Some (g_repo g)))
         | None =>
           finish_load c g (EStrFn f) (f_prim (o_content o))
-                      (load_new (fuel_for w) w (c_prov c) opn (Some f) (o_content o) kw (c_grepo c) s0)
+                      (load_new (fuel_for w) w (c_prov c) opn 0 (Some f) (o_content o) kw (c_grepo c) s0)
         end
       | EFile f =>
         match (if c_grepo c then repo_find f (g_repo g) else None) with
@@ -271,8 +304,18 @@ Definition run_op (w : list file) (c : cfg) (declared : list key) (opn : nat) (g
           | None => (g, OErr EMissing)
           | Some fr =>
             finish_load c g (EFile f) (f_prim fr)
-                        (load_new (fuel_for w) w (c_prov c) opn (Some f) fr kw (c_grepo c) s0)
+                        (load_new (fuel_for w) w (c_prov c) opn 0 (Some f) fr kw (c_grepo c) s0)
           end
+        end
+      | ERepo =>
+        match c_prov c with
+        | PGlobalRepo =>
+          match load_pats (fun mm f fr s' => load_new (S (length w)) w (c_prov c) opn mm (Some f) fr kw true s') w
+                          (f_imports (o_content o)) {| heap := g_heap g; allm := [] |} with
+          | Ok s' => ({| g_heap := heap s'; g_repo := g_repo g |}, ORepo (length (g_heap g)) (allm s'))
+          | Fail x => (g, OErr x)
+          end
+        | _ => (g, OErr ENotApplicable)
         end
       end
     end
@@ -301,11 +344,11 @@ Definition show_model (h : list mrec) (id : nat) : string :=
   match nth_error h id with
   | None => "?"
   | Some m => (match m_file m with Some f => if m_prim m then "-" else show_nat f | None => "-" end) ++ "/" ++ show_nat (m_op m) ++ "/"
-              ++ (if m_prim m then "P" else "") ++ show_params (m_params m)
+              ++ (if m_prim m then "P" else "") ++ show_params (m_params m) ++ "@" ++ show_nat (m_mm m)
   end.
 
 Definition show_err (e : err) : string :=
-  match e with EMissing => "missing" | EPrimAttr => "prim" | ENoFile => "nofile" | ENoParams => "noparams" | EFuel => "FUEL" end.
+  match e with EMissing => "missing" | EPrimAttr => "prim" | ENoFile => "nofile" | ENoParams => "noparams" | ENoMM => "nomm" | ENotApplicable => "na" | EFuel => "FUEL" end.
 
 Definition show_outcome (r : gstate * outcome) : string :=
   let '(g, out) := r in
@@ -321,6 +364,9 @@ Definition show_outcome (r : gstate * outcome) : string :=
        | None => " repo-"
        | Some r => " repo[" ++ sjoin " " (map (fun e => show_nat (fst e) ++ ":" ++ show_model (g_heap g) (snd e)) r) ++ "]"
        end
+  | ORepo n0 r =>
+    "G new[" ++ sjoin " " (map (show_model (g_heap g)) (seq n0 (List.length (g_heap g) - n0))) ++ "]"
+    ++ " repo[" ++ sjoin " " (map (fun e => show_nat (fst e) ++ ":" ++ show_model (g_heap g) (snd e)) r) ++ "]"
   end.
 
 Definition show_run (w : list file) (c : cfg) (adds : list key) (ops : list op) : string :=
@@ -337,12 +383,24 @@ Fixpoint end_state (w : list file) (c : cfg) (declared : list key) (opn : nat) (
 Definition ex_imp (l : list nat) : import := {| i_plain := Some l; i_rel := false; i_rooted := [] |}.
 (* a.m imports b.m and c.m, b.m imports c.m, c.m imports a.m (cycle + diamond) *)
 Definition ex_world : list file :=
-  [ {| f_imports := [ex_imp [1]; ex_imp [2]]; f_prim := false |};
-    {| f_imports := [ex_imp [2]]; f_prim := false |};
-    {| f_imports := [ex_imp [0]]; f_prim := false |} ].
+  [ {| f_imports := [ex_imp [1]; ex_imp [2]]; f_prim := false; f_lang := None |};
+    {| f_imports := [ex_imp [2]]; f_prim := false; f_lang := None |};
+    {| f_imports := [ex_imp [0]]; f_prim := false; f_lang := None |} ].
 Definition ex_cfg : cfg := {| c_prov := PImportURI; c_grepo := true |}.
 Definition k_p : list N := [112]%N.
 Definition k_debug : list N := [100;101;98;117;103]%N.
 Definition ex_op (kw : list (list N * N)) : op :=
-  {| o_entry := EFile 0; o_content := {| f_imports := []; f_prim := false |}; o_is_str := true; o_kw := kw |}.
+  {| o_entry := EFile 0; o_content := {| f_imports := []; f_prim := false; f_lang := None |}; o_is_str := true; o_kw := kw |}.
 
+
+(* two registered languages: a.m (language 0) imports b.n1 (language 1) which imports c.u (no language:
+   loaded by the importing metamodel, i.e. 1) and d.m (language 0 again) *)
+Definition ex_world_langs : list file :=
+  [ {| f_imports := [ex_imp [1]]; f_prim := false; f_lang := Some 0 |};
+    {| f_imports := [ex_imp [2]; ex_imp [3]]; f_prim := false; f_lang := Some 1 |};
+    {| f_imports := []; f_prim := false; f_lang := None |};
+    {| f_imports := [ex_imp [0]]; f_prim := false; f_lang := Some 0 |} ].
+(* the same files as registered GlobalRepo patterns *)
+Definition ex_repo_op (kw : list (list N * N)) : op :=
+  {| o_entry := ERepo; o_content := {| f_imports := [ex_imp [1; 2]; ex_imp [0]]; f_prim := false; f_lang := None |};
+     o_is_str := true; o_kw := kw |}.
